@@ -719,16 +719,25 @@ func c19Truncate(o *h.Out, rc *h.Rng) {
 		cfg.AccountSlots = uint64(1 + rc.Intn(3))
 		cfg.GlobalSlots = uint64(2 + rc.Intn(7))
 		cfg.AccountQueue, cfg.GlobalQueue = 64, 1024
-		pool, _, _ := newP19Pool(cfg, accts)
-		defer pool.Stop()
+		submitted := map[common.Hash]*types.Transaction{}
 		sent := make([]int, k)
 		order := []int{}
+		lateOverflow := rc.Chance(45)
 		for i := range accts {
 			sent[i] = 1 + rc.Intn(8)
+			if lateOverflow && i == 0 {
+				sent[i] = 6 + rc.Intn(4) // the list that is advanced by the block and then cut is a long one
+			}
 			for j := 0; j < sent[i]; j++ {
 				order = append(order, i)
 			}
 		}
+		if lateOverflow {
+			// room for everything at first: the limits only bite after a block has advanced one of the lists
+			cfg.GlobalSlots = uint64(len(order) + rc.Intn(2))
+		}
+		pool, ch, _ := newP19Pool(cfg, accts)
+		defer pool.Stop()
 		for i := len(order) - 1; i > 0; i-- { // interleave the accounts' runs
 			j := rc.Intn(i + 1)
 			order[i], order[j] = order[j], order[i]
@@ -737,9 +746,39 @@ func c19Truncate(o *h.Out, rc *h.Rng) {
 		for _, ai := range order {
 			tx := p19Tx(accts[ai], next[ai], uint64(100+rc.Intn(20)), uint64(rc.Intn(100)))
 			next[ai]++
+			submitted[tx.Hash()] = tx
 			pool.AddRemotesSync([]*types.Transaction{tx})
 		}
 		p19Settle(pool, accts)
+		afterBlock := false
+		if rc.Chance(60) || lateOverflow {
+			// a block takes the first transaction of one account (its list is advanced), then another account sends a
+			// further run: the limits are enforced again, on lists that have been cut at the front before
+			ai := rc.Intn(k)
+			if lateOverflow {
+				ai = 0
+			}
+			if pend, _ := pool.ContentFrom(accts[ai].ia); len(pend) > 0 {
+				sort.Slice(pend, func(i, j int) bool { return pend[i].Nonce() < pend[j].Nonce() })
+				accts[ai].nonce = pend[0].Nonce() + 1
+				ch.setHead(ch.newBlock(ch.CurrentBlock(), types.Transactions{pend[0]}, accts, 1))
+				p19Settle(pool, accts)
+				sent[ai]--
+				bi := (ai + 1) % k
+				more := 2 + rc.Intn(5)
+				for j := 0; j < more; j++ {
+					tx := p19Tx(accts[bi], next[bi], uint64(100+rc.Intn(20)), uint64(rc.Intn(100)))
+					next[bi]++
+					submitted[tx.Hash()] = tx
+					pool.AddRemotesSync([]*types.Transaction{tx})
+				}
+				sent[bi] += more
+				p19Settle(pool, accts)
+				afterBlock = true
+				o.Count("limits-case:after-a-block")
+			}
+		}
+		p19Invariants(o, pool, accts, submitted, "limits")
 		total, guaranteed := 0, 0
 		var desc []string
 		for i, a := range accts {
@@ -748,11 +787,11 @@ func c19Truncate(o *h.Out, rc *h.Rng) {
 			g := min(int(cfg.AccountSlots), sent[i])
 			guaranteed += g
 			desc = append(desc, fmt.Sprintf("%d of %d", len(pend), sent[i]))
-			if len(pend) < g {
+			if len(pend) < g && !afterBlock { // (after a block a list is also shorter because its head was mined: only the index invariants are checked then)
 				o.Violate("c19-account-cut-below-its-guarantee", fmt.Sprintf("AccountSlots %d, GlobalSlots %d: account %d submitted %d consecutive transactions and keeps %d pending (all accounts: %s)", cfg.AccountSlots, cfg.GlobalSlots, i, sent[i], len(pend), strings.Join(desc, ", ")))
 			}
 		}
-		if lim := max(int(cfg.GlobalSlots), guaranteed); total > lim {
+		if lim := max(int(cfg.GlobalSlots), guaranteed); total > lim && !afterBlock {
 			o.Violate("c19-pending-limit", fmt.Sprintf("AccountSlots %d, GlobalSlots %d: %d pending in total (%s), at most %d allowed", cfg.AccountSlots, cfg.GlobalSlots, total, strings.Join(desc, ", "), lim))
 		}
 		o.Count("limits-case")
